@@ -12,6 +12,7 @@ import (
 	"path/filepath"
 	"regexp"
 	"strings"
+	"syscall"
 	"testing"
 	"time"
 
@@ -28,9 +29,14 @@ const c18Rule = "each scenario runs a real in-process server (own NATS server, R
 func c18Single(rep *kit.Report, run int, seed uint64) {
 	e := c18NewEnv(rep, "single", run, seed)
 	rng := e.rng
-	consumerTimeout := 15 * time.Second
+	// Consumers are never heart-beaten.  In a third of the scenarios they expire
+	// quickly (LEAVE operations with expired=true committed by the server on
+	// its own); otherwise never.  See drainGroups for why a server with
+	// pending expiry timers is not stopped.
+	consumerTimeout := time.Hour
 	if rng.Chance(1, 3) {
-		consumerTimeout = time.Duration(rng.Range(800, 2500)) * time.Millisecond
+		consumerTimeout = time.Duration(rng.Range(600, 1800)) * time.Millisecond
+		e.expiry = true
 	}
 	cursors := rng.Chance(1, 3)
 	c, _, err := vfSingle("c18s", e.mut(func(cfg *Config) {
@@ -96,16 +102,11 @@ func TestVerifC18Single(t *testing.T) {
 	rep.Assume("what a subscriber from offset 0 is served = the committed part of the __activity partition log on its leader (delivery of committed messages is C03's subject)")
 	root := kit.NewRNG(kit.Mix(kit.Seed(), 0xC18))
 	n := kit.Scale(32, 360)
-	seeds := make([]uint64, n)
-	for i := range seeds {
-		seeds[i] = root.Uint64()
+	specs := make([]c18ChildSpec, n)
+	for i := range specs {
+		specs[i] = c18ChildSpec{Unit: "single", Run: i, Seed: root.Uint64()}
 	}
-	kit.Parallel(n, kit.Workers(), func(i int) {
-		if rep.NumViolations() >= 4 || c18Skip(i) {
-			return
-		}
-		c18Single(rep, i, seeds[i])
-	})
+	c18RunChildren(rep, "single", specs, kit.Workers())
 }
 
 // c18Snapshot runs one single-server scenario in which a Raft snapshot is
@@ -125,7 +126,7 @@ func TestVerifC18Single(t *testing.T) {
 func c18Snapshot(rep *kit.Report, unit string, run int, seed uint64, variant, trailing, bulk int) {
 	e := c18NewEnv(rep, unit, run, seed)
 	rng := e.rng
-	c, _, err := vfSingle("c18n", e.mut(nil))
+	c, _, err := vfSingle("c18n", e.mut(func(cfg *Config) { cfg.Groups.ConsumerTimeout = time.Hour }))
 	if err != nil {
 		rep.Inconc(fmt.Sprintf("[%s run %d] server start failed: %v", unit, run, err))
 		return
@@ -136,6 +137,13 @@ func c18Snapshot(rep *kit.Report, unit string, run int, seed uint64, variant, tr
 	e.installHooks(rng.Range(0, 2), rng.Range(0, 2), rng.Range(10, 30), rng.Range(10, 30), false)
 	before := rng.Range(6, 14)
 	after := rng.Range(4, 10)
+	if trailing > 0 {
+		// scaled-down TrailingLogs: enough entries for the snapshot to truncate
+		// the log, and no operations the server commits on its own (auto-pause),
+		// so that the dispatcher is really idle when the snapshot is taken
+		before = rng.Range(20, 30)
+		e.noAuto = true
+	}
 	bad := func() bool {
 		e.mu.Lock()
 		defer e.mu.Unlock()
@@ -155,12 +163,27 @@ func c18Snapshot(rep *kit.Report, unit string, run int, seed uint64, variant, tr
 		// the snapshot
 		e.doOp(c18Op{Kind: "create", Stream: "bulk", NParts: 1, RF: 1})
 		ctx := context.Background()
+		var gate chan struct{}
+		if variant == 3 {
+			// hold the dispatcher back during the bulk so that afterwards every
+			// event's PUBLISH_ACTIVITY entry lies behind the last operation
+			gate = make(chan struct{})
+			e.mu.Lock()
+			e.gate = gate
+			e.mu.Unlock()
+		}
 		for i := 0; i < bulk && !bad(); i++ {
 			if _, err := srv.api.SetStreamReadonly(ctx, &client.SetStreamReadonlyRequest{Name: "bulk", Readonly: i%2 == 0}); err != nil {
 				e.inconclusive("bulk operation failed: " + err.Error())
 			}
 		}
 		e.step("bulk(readonly x%d,commit=%d)", bulk, srv.getRaft().getCommitIndex())
+		if gate != nil {
+			e.mu.Lock()
+			e.gate = nil
+			e.mu.Unlock()
+			close(gate)
+		}
 	}
 	if rng.Bool() || trailing > 0 || bulk > 0 {
 		// let the dispatcher record everything first.  With a scaled-down
@@ -179,10 +202,17 @@ func c18Snapshot(rep *kit.Report, unit string, run int, seed uint64, variant, tr
 			return
 		}
 	}
-	e.absorbStore(srv, "a")
 	if variant == 3 {
-		e.step("stop-during-walk(lastPublished=%d,commit=%d)", srv.activity.LastPublishedRaftIndex(), srv.getRaft().getCommitIndex())
-		if !e.restartNode("a") || e.leader() == nil {
+		// stop at once: the dispatcher has just recorded the last event and is
+		// walking the PUBLISH_ACTIVITY entries that piled up behind it
+		time.Sleep(time.Duration(kit.EnvInt("C18_STOP_DELAY_MS", 0)) * time.Millisecond)
+		c18Stage("stopping")
+		if err := e.c.StopNode("a"); err != nil {
+			e.logf("stop a: %v", err)
+		}
+		c18Stage("starting")
+		e.step("stopped-during-walk")
+		if !e.startNode("a") || e.leader() == nil {
 			e.account()
 			return
 		}
@@ -190,10 +220,10 @@ func c18Snapshot(rep *kit.Report, unit string, run int, seed uint64, variant, tr
 			e.doOp(e.genOp(1, false))
 		}
 		e.finish(fmt.Sprintf("fence%d", run))
-		c18Stage("done")
 		e.account()
 		return
 	}
+	e.absorbStore(srv, "a")
 	if trailing > 0 {
 		if err := srv.getRaft().ReloadConfig(raft.ReloadableConfig{TrailingLogs: uint64(trailing), SnapshotInterval: 120 * time.Second,
 			SnapshotThreshold: 8192, HeartbeatTimeout: time.Second, ElectionTimeout: time.Second}); err != nil {
@@ -241,7 +271,6 @@ func c18Snapshot(rep *kit.Report, unit string, run int, seed uint64, variant, tr
 		e.doOp(e.genOp(1, false))
 	}
 	e.finish(fmt.Sprintf("fence%d", run))
-	c18Stage("done")
 	e.account()
 }
 
@@ -253,16 +282,11 @@ func TestVerifC18Snapshot(t *testing.T) {
 	rep.SetRule(c18Rule + " ; snapshot unit: a Raft snapshot is forced (raft.Snapshot()) and the server restarted right after it (variant 0), after one more operation whose event is held back by two injected publish failures (variant 1: no PUBLISH_ACTIVITY entry follows the snapshot) or after 2..5 more operations (variant 2)")
 	root := kit.NewRNG(kit.Mix(kit.Seed(), 0xC185))
 	n := kit.Scale(12, 90)
-	seeds := make([]uint64, n)
-	for i := range seeds {
-		seeds[i] = root.Uint64()
+	specs := make([]c18ChildSpec, n)
+	for i := range specs {
+		specs[i] = c18ChildSpec{Unit: "snapshot", Run: i, Seed: root.Uint64(), Variant: i % 3}
 	}
-	kit.Parallel(n, kit.Workers(), func(i int) {
-		if rep.NumViolations() >= 6 || c18Skip(i) {
-			return
-		}
-		c18Snapshot(rep, "snapshot", i, seeds[i], i%3, 0, 0)
-	})
+	c18RunChildren(rep, "snapshot", specs, kit.Workers())
 }
 
 // c18Cluster runs one 3-server scenario: the metadata leader (= activity
@@ -271,11 +295,22 @@ func TestVerifC18Snapshot(t *testing.T) {
 func c18Cluster(rep *kit.Report, run int, seed uint64) {
 	e := c18NewEnv(rep, "cluster", run, seed)
 	rng := e.rng
+	// Bootstrap mode decides where __activity lives (its replication factor -1
+	// means "all servers known when it is created"): with a seed server the
+	// first controller creates it before the others join, so it is the only
+	// replica; with a peer list all three servers replicate it.
+	peers := run%2 == 0
 	c, err := vfNewCluster("c18c", 3, e.mut(func(cfg *Config) {
+		if peers {
+			cfg.Clustering.RaftBootstrapSeed = false
+			cfg.Clustering.RaftBootstrapPeers = []string{e.prefix + "a", e.prefix + "b", e.prefix + "c"}
+		}
 		cfg.Clustering.ReplicaMaxLeaderTimeout = 1200 * time.Millisecond
 		cfg.Clustering.ReplicaMaxIdleWait = 250 * time.Millisecond
 		cfg.Clustering.ReplicaFetchTimeout = 400 * time.Millisecond
 		cfg.Clustering.ReplicaMaxLagTime = 1500 * time.Millisecond
+		cfg.Groups.ConsumerTimeout = time.Hour
+		cfg.Groups.CoordinatorTimeout = time.Hour
 	}))
 	if err != nil {
 		rep.Inconc(fmt.Sprintf("[cluster run %d] cluster start failed: %v", run, err))
@@ -290,9 +325,10 @@ func c18Cluster(rep *kit.Report, run int, seed uint64) {
 	nops := rng.Range(16, 26)
 	stopAt := rng.Range(3, nops-8)
 	backAt := stopAt + rng.Range(2, 5)
-	if rng.Chance(1, 4) {
-		backAt = -1
+	if peers && rng.Chance(1, 4) {
+		backAt = -1 // the stopped server stays away (only where __activity has other replicas)
 	}
+	e.step("cluster(activityReplicas=%d)", e.activityReplicas())
 	transferAt := -1
 	if rng.Chance(2, 3) {
 		transferAt = rng.Range(2, nops-1)
@@ -359,25 +395,24 @@ func c18Cluster(rep *kit.Report, run int, seed uint64) {
 func TestVerifC18Cluster(t *testing.T) {
 	rep := kit.NewReport("C18", "cluster")
 	defer rep.Write()
-	rep.SetRule(c18Rule + " ; cluster unit: 3 servers (activity stream replicated on all, ack policy ALL), the metadata leader is stopped at a seeded position (the new controller resumes from the replicated last-published index), leadership is also transferred gracefully (2/3 of the scenarios) and the stopped server is restarted (3/4)")
+	rep.SetRule(c18Rule + " ; cluster unit: 3 servers, bootstrapped from a peer list (even scenarios: __activity replicated on all three, ack policy ALL) or from a seed server (odd scenarios: the first controller is the only replica of __activity); the metadata leader is stopped at a seeded position (the new controller resumes from the replicated last-published index), leadership is also transferred gracefully (2/3 of the scenarios) and the stopped server is restarted (always when it is the only replica of __activity, else 3/4)")
 	rep.Assume("a server is removed with Server.Stop(); NATS-level network partitions are not simulated")
 	root := kit.NewRNG(kit.Mix(kit.Seed(), 0xC18C))
 	n := kit.Scale(4, 40)
-	seeds := make([]uint64, n)
-	for i := range seeds {
-		seeds[i] = root.Uint64()
+	specs := make([]c18ChildSpec, n)
+	for i := range specs {
+		specs[i] = c18ChildSpec{Unit: "cluster", Run: i, Seed: root.Uint64()}
 	}
-	kit.Parallel(n, 4, func(i int) {
-		if rep.NumViolations() >= 4 || c18Skip(i) {
-			return
-		}
-		c18Cluster(rep, i, seeds[i])
-	})
+	c18RunChildren(rep, "cluster", specs, 4)
 }
 
-// ---------------------------------------------------------------- compaction (child processes)
+// ---------------------------------------------------------------- child processes
 
+// Every scenario runs in a child process of its own: the server process dying
+// is a possible outcome of stopping / restarting a controller (see the known
+// findings), and a panic on a server goroutine cannot be caught in-process.
 type c18ChildSpec struct {
+	Unit     string `json:"unit"`
 	Run      int    `json:"run"`
 	Seed     uint64 `json:"seed"`
 	Variant  int    `json:"variant"`
@@ -385,66 +420,55 @@ type c18ChildSpec struct {
 	Bulk     int    `json:"bulk"`
 }
 
-// TestVerifC18Child runs ONE compaction scenario; the server process dying is
-// a possible outcome there, so the parent classifies the child's end.
+// TestVerifC18Child runs ONE scenario; the parent classifies the child's end.
 func TestVerifC18Child(t *testing.T) {
 	raw := os.Getenv("C18_CHILD")
 	if raw == "" {
-		t.Skip("child of TestVerifC18Compaction")
+		t.Skip("child of the TestVerifC18* units")
 	}
 	var spec c18ChildSpec
 	if err := json.Unmarshal([]byte(raw), &spec); err != nil {
 		t.Fatal(err)
 	}
-	rep := kit.NewReport("C18", "compaction-child")
+	rep := kit.NewReport("C18", spec.Unit+"-child")
 	defer rep.Write()
 	c18Stage("started")
-	c18Snapshot(rep, "compaction", spec.Run, spec.Seed, spec.Variant, spec.Trailing, spec.Bulk)
+	switch spec.Unit {
+	case "single":
+		c18Single(rep, spec.Run, spec.Seed)
+	case "snapshot", "compaction":
+		c18Snapshot(rep, spec.Unit, spec.Run, spec.Seed, spec.Variant, spec.Trailing, spec.Bulk)
+	case "cluster":
+		c18Cluster(rep, spec.Run, spec.Seed)
+	default:
+		t.Fatalf("unknown unit %q", spec.Unit)
+	}
+	c18Stage("done")
 }
 
 var c18FrameRe = regexp.MustCompile(`(?m)^(\S*liftbridge/server\.\S*)\(.*\)\n\t(\S+\.go):(\d+)`)
 
-// TestVerifC18Compaction: the snapshot scenarios with Raft's TrailingLogs
-// scaled down, so that the forced snapshot also truncates the Raft log the
-// dispatcher reads from.  One child process per scenario.
-func TestVerifC18Compaction(t *testing.T) {
-	rep := kit.NewReport("C18", "compaction")
-	defer rep.Write()
-	rep.SetRule(c18Rule + " ; compaction unit: the snapshot scenarios (variants 1 and 2) in one child process each, with Raft's TrailingLogs reloaded to 2..16 before the forced snapshot so that the snapshot truncates the Raft log; the child's death (panic) after the restart is classified by the parent")
-	rep.Assume("Raft's TrailingLogs is 10240 in production (raft.DefaultConfig, not exposed by Liftbridge); the harness scales it down through Raft.ReloadConfig so that 'the snapshot truncated the log below the last recorded activity index' is reached after tens instead of >10240 Raft entries")
+// c18RunChildren runs one child process per scenario and merges the reports.
+func c18RunChildren(rep *kit.Report, unit string, specs []c18ChildSpec, workers int) {
 	self := os.Getenv("VERIF_SELF")
 	if self == "" {
 		self, _ = os.Executable()
 	}
-	dir := vfWorkDir("c18-children")
-	defer os.RemoveAll(dir)
-	root := kit.NewRNG(kit.Mix(kit.Seed(), 0xC18D))
-	n := kit.Scale(4, 20)
-	specs := make([]c18ChildSpec, n)
-	for i := range specs {
-		specs[i] = c18ChildSpec{Run: i, Seed: root.Uint64(), Variant: 1 + i%2, Trailing: root.Range(2, 16)}
-	}
-	// unscaled scenarios: Raft's own TrailingLogs, >10240 committed entries
-	for i := 0; i < kit.Scale(1, 2); i++ {
-		specs = append(specs, c18ChildSpec{Run: n + i, Seed: root.Uint64(), Variant: 1, Trailing: 0, Bulk: 3700 + 200*i})
-	}
-	// stop while the dispatcher walks a long tail of PUBLISH_ACTIVITY entries
-	for i := 0; i < kit.Scale(1, 3); i++ {
-		specs = append(specs, c18ChildSpec{Run: len(specs), Seed: root.Uint64(), Variant: 3, Trailing: 0, Bulk: 1200 + 300*i})
-	}
-	n = len(specs)
-	kit.Parallel(n, 4, func(i int) {
-		if rep.NumViolations() >= 4 || c18Skip(i) {
+	dir := vfWorkDir("c18-" + unit)
+	kit.Parallel(len(specs), workers, func(i int) {
+		if rep.NumViolations() >= 6 || c18Skip(i) {
 			return
 		}
 		spec := specs[i]
-		cdir := filepath.Join(dir, fmt.Sprintf("child%02d", i))
+		cdir := filepath.Join(dir, fmt.Sprintf("child%03d", i))
 		os.MkdirAll(cdir, 0755)
 		sb, _ := json.Marshal(spec)
 		out := filepath.Join(cdir, "report.json")
 		stageFile := filepath.Join(cdir, "stage")
-		cmd := exec.Command(self, "-test.run", "^TestVerifC18Child$", "-test.count", "1", "-test.timeout", "10m")
-		cmd.Env = append(os.Environ(), "C18_CHILD="+string(sb), "VERIF_OUT="+out, "VERIF_WORK="+cdir, "TMPDIR="+cdir, "C18_STAGE_FILE="+stageFile)
+		sigFile := filepath.Join(cdir, "sig")
+		cmd := exec.Command(self, "-test.run", "^TestVerifC18Child$", "-test.count", "1", "-test.timeout", "12m")
+		cmd.Env = append(os.Environ(), "C18_CHILD="+string(sb), "VERIF_OUT="+out, "VERIF_WORK="+cdir, "TMPDIR="+cdir,
+			"C18_STAGE_FILE="+stageFile, "C18_SIG_FILE="+sigFile)
 		var ob bytes.Buffer
 		cmd.Stdout, cmd.Stderr = &ob, &ob
 		if err := cmd.Start(); err != nil {
@@ -452,7 +476,7 @@ func TestVerifC18Compaction(t *testing.T) {
 			return
 		}
 		timedOut := false
-		timer := time.AfterFunc(8*time.Minute, func() { timedOut = true; cmd.Process.Kill() })
+		timer := time.AfterFunc(10*time.Minute, func() { timedOut = true; cmd.Process.Signal(syscall.SIGQUIT) })
 		werr := cmd.Wait()
 		timer.Stop()
 		rep.Eval()
@@ -468,18 +492,14 @@ func TestVerifC18Compaction(t *testing.T) {
 			Violations   []*kit.Violation `json:"violations"`
 			Inconclusive []string         `json:"inconclusive"`
 			Samples      []map[string]any `json:"samples"`
-			Distinct     int              `json:"distinct_nontrivial"`
 		}
 		if b, err := os.ReadFile(out); err == nil {
 			json.Unmarshal(b, &child)
 		}
-		replay := map[string]any{"child_spec": spec, "stage": string(stage)}
-		if len(child.Samples) > 0 {
-			replay["steps"] = child.Samples[0]["steps"]
-		}
+		replay := map[string]any{"child_spec": spec, "stage": string(stage), "replay_hint": fmt.Sprintf("VERIF_SEED=%d C18_ONLY=%d ./check C18 --unit %s", kit.Seed(), i, unit)}
 		switch {
 		case timedOut:
-			rep.Inconc(fmt.Sprintf("watchdog: compaction child %d did not finish (stage %s)", i, stage))
+			rep.Inconc(fmt.Sprintf("watchdog: %s child %d did not finish (stage %s): %s", unit, i, stage, c18Tail(text, 1500)))
 		case child.Completed:
 			rep.Count("children_completed", 1)
 			for k, v := range child.Counts {
@@ -497,16 +517,19 @@ func TestVerifC18Compaction(t *testing.T) {
 			for _, s := range child.Inconclusive {
 				rep.Inconc(s)
 			}
-			if child.Distinct > 0 && len(child.Samples) > 0 {
-				rep.Nontrivial(fmt.Sprintf("child %d %v", i, child.Samples[0]["steps"]))
+			if sig, err := os.ReadFile(sigFile); err == nil && len(sig) > 0 {
+				rep.Nontrivial(string(sig))
 			}
-			if len(child.Samples) > 0 {
+			if len(child.Samples) > 0 && (i < 3 || kit.EnvInt("C18_ONLY", -1) >= 0) {
 				rep.Sample(child.Samples[0])
+			}
+			if len(child.Violations) == 0 {
+				os.RemoveAll(cdir) // the child has exited: nothing can trip over the missing directory
 			}
 		default:
 			m := regexp.MustCompile(`(?m)^(panic: .*|fatal error: .*)$`).FindString(text)
 			if m == "" {
-				rep.Inconc(fmt.Sprintf("compaction child %d ended without a report and without a panic message (stage %s, wait %v): %s", i, stage, werr, tail))
+				rep.Inconc(fmt.Sprintf("%s child %d ended without a report and without a panic message (stage %s, wait %v): %s", unit, i, stage, werr, c18Tail(text, 1500)))
 				return
 			}
 			fn := "?"
@@ -517,20 +540,51 @@ func TestVerifC18Compaction(t *testing.T) {
 			rep.Count("server_process_crashes", 1)
 			replay["crash"] = m
 			replay["child_output_tail"] = tail
-			rep.Nontrivial(fmt.Sprintf("child %d crash %s variant %d", i, fn, spec.Variant))
+			rep.Nontrivial(fmt.Sprintf("%s child %d crash %s at %s", unit, i, fn, stage))
 			rep.Sample(replay)
-			switch string(stage) {
-			case "stopping":
-				rep.Violation("C18:compaction:crash-while-stopping:"+fn,
-					fmt.Sprintf("the server process died (%s, first server frame %s) inside Server.Stop(): the activity dispatcher read the Raft log store after Stop had closed it", m, fn), replay)
-			case "starting":
-				rep.Violation("C18:compaction:controller-crash-after-snapshot-restart:"+fn,
+			switch {
+			case string(stage) == "stopping":
+				rep.Violation("C18:"+unit+":crash-while-stopping:"+fn,
+					fmt.Sprintf("the server process died (%s, first server frame %s) inside Server.Stop()", m, fn), replay)
+			case string(stage) == "starting" && spec.Variant >= 1 && (spec.Trailing > 0 || spec.Bulk > 0):
+				rep.Violation("C18:"+unit+":controller-crash-after-snapshot-restart:"+fn,
 					fmt.Sprintf("the server process died (%s, first server frame %s) when it became controller again after a restart from a Raft snapshot that had truncated the Raft log (%s): the last-published activity index is not part of the snapshot, the dispatcher restarts from Raft index 1 and panics on the missing log entry; no later operation is ever listed", m, fn, c18TrailingText(spec)), replay)
 			default:
-				rep.Violation("C18:compaction:server-crash:"+fn, fmt.Sprintf("the server process died (%s, first server frame %s) at stage %s", m, fn, stage), replay)
+				rep.Violation("C18:"+unit+":server-crash:"+fn, fmt.Sprintf("the server process died (%s, first server frame %s) at stage %s", m, fn, stage), replay)
 			}
 		}
 	})
+}
+
+func c18Tail(s string, n int) string {
+	if len(s) > n {
+		return s[len(s)-n:]
+	}
+	return s
+}
+
+// TestVerifC18Compaction: the snapshot scenarios with a Raft log that the
+// forced snapshot really truncates.
+func TestVerifC18Compaction(t *testing.T) {
+	rep := kit.NewReport("C18", "compaction")
+	defer rep.Write()
+	rep.SetRule(c18Rule + " ; compaction unit: the snapshot scenarios (variants 1 and 2) with Raft's TrailingLogs reloaded to 24..40 before the forced snapshot so that the snapshot truncates the Raft log, the same with Raft's own TrailingLogs after >10240 committed entries (3700+ bulk set-read-only operations), and variant 3: the server is stopped while the dispatcher walks the long tail of PUBLISH_ACTIVITY entries left by 1200+ bulk operations")
+	rep.Assume("Raft's TrailingLogs is 10240 in production (raft.DefaultConfig, not exposed by Liftbridge); the scaled scenarios reload it through Raft.ReloadConfig after the dispatcher has caught up, so that 'the snapshot truncated the log below the last recorded activity index' is reached after tens instead of >10240 Raft entries; the unscaled scenarios do not touch it")
+	root := kit.NewRNG(kit.Mix(kit.Seed(), 0xC18D))
+	n := kit.Scale(4, 20)
+	specs := make([]c18ChildSpec, n)
+	for i := range specs {
+		specs[i] = c18ChildSpec{Unit: "compaction", Run: i, Seed: root.Uint64(), Variant: 1 + i%2, Trailing: root.Range(24, 40)}
+	}
+	// unscaled scenarios: Raft's own TrailingLogs, >10240 committed entries
+	for i := 0; i < kit.Scale(1, 2); i++ {
+		specs = append(specs, c18ChildSpec{Unit: "compaction", Run: len(specs), Seed: root.Uint64(), Variant: 1, Bulk: 3700 + 200*i})
+	}
+	// stop while the dispatcher walks a long tail of PUBLISH_ACTIVITY entries
+	for i := 0; i < kit.Scale(1, 3); i++ {
+		specs = append(specs, c18ChildSpec{Unit: "compaction", Run: len(specs), Seed: root.Uint64(), Variant: 3, Bulk: 1200 + 300*i})
+	}
+	c18RunChildren(rep, "compaction", specs, 4)
 }
 
 func c18TrailingText(spec c18ChildSpec) string {
